@@ -7,6 +7,7 @@ import (
 	"errors"
 	"fmt"
 	"io"
+	"math"
 	"net"
 	"runtime"
 	"sort"
@@ -870,7 +871,6 @@ func (multi *MultiEpoch) processSlotTransactions(
 		return nil
 	} else {
 
-		const batchSize = 100
 		buffer := newTxBuffer(uint64(startSlot), uint64(endSlot))
 		errChan := make(chan error, len(filter.AccountInclude))
 
@@ -900,9 +900,9 @@ func (multi *MultiEpoch) processSlotTransactions(
 				epochToTxns, err := gsfaReader.GetBeforeUntilSlot(
 					queryCtx,
 					pKey,
-					batchSize,
-					endSlot+1, //  Before (exclusive)
-					startSlot, // Until (inclusive)
+					math.MaxInt32, // no cap: a limit here silently dropped the oldest matches of the range (see batchSize)
+					endSlot+1,     //  Before (exclusive)
+					startSlot,     // Until (inclusive)
 					func(epochNum uint64, oas linkedlog.OffsetAndSizeAndSlot) (*ipldbindcode.Transaction, error) {
 						fnStartTime := time.Now()
 						defer func() {
